@@ -292,14 +292,14 @@ class Graph:
 
 def prologue_functions(ex, G):
     """functions reachable before the first re-seed of a task"""
-    from harness.extract.effects import ExtractError
+    from harness.extract.effects import PatternError
 
     k_sim = ("simulation.simulation_helpers", "simulate")
     k_run = ("ldar_sim", "LdarSim.run_simulation")
     if k_sim not in G.funcs:
-        raise ExtractError("pattern missing: simulation.simulation_helpers.simulate")
+        raise PatternError("pattern missing: simulation.simulation_helpers.simulate")
     if k_run not in G.funcs:
-        raise ExtractError("pattern missing: ldar_sim.LdarSim.run_simulation")
+        raise PatternError("pattern missing: ldar_sim.LdarSim.run_simulation")
     roots = set(G.callees(k_sim, skip_attr_calls=("run_simulation",)))
     fn, _ = G.funcs[k_run]
     pre = []
@@ -308,7 +308,7 @@ def prologue_functions(ex, G):
             break
         pre.append(st)
     else:
-        raise ExtractError("pattern missing: day loop in LdarSim.run_simulation")
+        raise PatternError("pattern missing: day loop in LdarSim.run_simulation")
     roots |= set(G.callees(k_run, stmts=pre))
     roots.discard(k_run)
     reach = G.closure(roots)
@@ -375,15 +375,15 @@ def copy_hooks(ex, G):
 
 
 def copy_wiring(ex, G):
-    from harness.extract.effects import ExtractError
+    from harness.extract.effects import PatternError
 
     k = ("simulation.simulation_helpers", "simulate")
     if k not in G.funcs:
-        raise ExtractError("pattern missing: simulation.simulation_helpers.simulate")
+        raise PatternError("pattern missing: simulation.simulation_helpers.simulate")
     fn, _ = G.funcs[k]
     params = [a.arg for a in fn.args.posonlyargs + fn.args.args + fn.args.kwonlyargs]
     if "infrastructure" not in params:
-        raise ExtractError("pattern missing: parameter `infrastructure` of simulate()")
+        raise PatternError("pattern missing: parameter `infrastructure` of simulate()")
     n_copy, targets = 0, set()
     for n in ast.walk(fn):
         if isinstance(n, ast.Assign) and isinstance(n.value, ast.Call):
@@ -475,4 +475,18 @@ def nondet_sites(ex, G):
                     add(n, "dirListing", "<path>." + n.func.attr)
                 if isinstance(n.func, ast.Attribute) and n.func.attr == "glob" and not (c and m.alias.get(c[0], ("",))[0] == "ext"):
                     add(n, "dirListing", "<path>.glob")
+    return rows
+
+
+def memo_functions(ex, G):
+    """functions whose results are memoised in a process-wide cache (functools.lru_cache / cache / cached_property on a
+    class-level descriptor is per instance and not listed): the cache is module-level state that survives between tasks;
+    listed among the shared mutations (operation "@lru_cache" / "@cache")"""
+    rows = []
+    for (mod, qual), (fn, cls) in sorted(G.funcs.items()):
+        m = ex.mods[mod]
+        for d in fn.decorator_list:
+            c = chain(d.func if isinstance(d, ast.Call) else d)
+            if c and c[-1] in ("lru_cache", "cache"):
+                rows.append({"file": m.rel, "line": fn.lineno, "func": qual, "target": f"{mod}:{qual}.<memo cache>", "op": "@" + c[-1]})
     return rows
